@@ -293,7 +293,7 @@ def run(ctx):
     from sa.rules import hwstate
     hwstate.run(ctx, repo, 'C20.5-hwstate')
     from sa.rules import C08paging, C09
-    C08paging.python_sites(ctx, repo, rule='C20.3-latch', floor=8)
+    C08paging.python_sites(ctx, repo, rule='C20.3-latch', floor=7)
     C09.misc_rules(ctx, repo, repo.mod('snapshot'))
     from sa.rules import memo
     memo.run_for(ctx, repo, 'C20')
